@@ -2512,3 +2512,58 @@ def r8_22(rep):
                   "an innard of an opaque item is only recorded when `%s`: what the opaque type hides is never allowlisted through it, "
                   "so its facts are never computed (`--opaque-type Foo --allowlist-type Foo` with a member that has a destructor derives Copy)"
                   % filt[0][:90], b.loc(c))
+
+
+@RULES.rule("R8.23", "the hand-written Debug impl formats a struct / union member only if that type has a Debug impl of some kind", floor=2)
+def r8_23(rep):
+    """A record excluded from Debug by the user (`--no-debug X`, the `nodebug` annotation) gets neither the derive nor a hand-written
+    impl (`needs_debug_impl` in `CompInfo::codegen` tests both).  Its container cannot derive Debug either and, under `--impl-debug`,
+    gets the hand-written impl; formatting the member with `{:?}` there is E0277 (before the fix).  In `<Item as ImplDebug>::impl_debug`,
+    walking the arms for `TypeKind::Comp` in order: with `no_debug_by_name` true, or with `disallow_debug` true, the arm that is
+    taken does not format the member."""
+    import itertools
+    import qq
+    prog = rep.prog
+    b = rep.need(prog.impl_fn("codegen::impl_debug::ImplDebug", "ir::item::Item", "impl_debug"), "<Item as ImplDebug>::impl_debug")
+    ms = [m for m in b.walk() if m["k"] == "Match" and any(v.endswith("TypeKind::Comp") for a in m["arms"] for v in pat_variants(a["pat"]))]
+    if not rep.check(len(ms) == 1, "debug:comp-arms", "one match over the member's kind names TypeKind::Comp (found %d)" % len(ms), b.loc(b.root)):
+        return
+    m = ms[0]
+    arms = [a for a in m["arms"] if any(v.endswith("TypeKind::Comp") or v == "_" for v in pat_variants(a["pat"]))]
+
+    def formats(body):
+        return any(c["k"] == "Call" and (c.get("callee") or "").endswith("debug_print") for c in b.walk(body)) or \
+            any(c["k"] == "MCall" and c["name"] == "impl_debug" for c in b.walk(body))
+    # exclusions that codegen tests before giving the record an impl of its own
+    cg = rep.need(prog.impl_fn("codegen::CodeGenerator", "ir::comp::CompInfo", "codegen"), "<CompInfo as CodeGenerator>::codegen")
+    tests = set()
+    for n in cg.walk():
+        if n["k"] == "MCall" and n["name"] in ("no_debug_by_name", "disallow_debug"):
+            tests.add(n["name"])
+    rep.need(tests == {"no_debug_by_name", "disallow_debug"}, "the two exclusion tests in front of `needs_debug_impl` (found %s)" % sorted(tests))
+    for excl in sorted(tests):
+        verdict = None
+        detail = ""
+        for a in arms:
+            gd = a.get("guard")
+            if gd is None:
+                verdict = not formats(a["body"])
+                detail = "falls to an unguarded arm"
+                break
+            f = _formula(b, gd)
+            atoms = sorted(_atoms(f, set()))
+            fixed = {x: True for x in atoms if excl in x}
+            free = [x for x in atoms if x not in fixed]
+            vals_ = [_ev(f, dict(zip(free, vs), **fixed)) for vs in itertools.product((False, True), repeat=len(free))]
+            if all(vals_):
+                verdict = not formats(a["body"])
+                detail = "taken by the arm guarded with `%s`" % b.canon(gd, 4)[:80]
+                break
+            if any(vals_):
+                verdict = False
+                detail = "the guard `%s` does not always hold when `%s` does" % (b.canon(gd, 4)[:80], excl)
+                break
+        rep.check(bool(verdict), "debug:excluded-member-not-formatted:%s" % excl,
+                  "a member whose type is excluded through `%s` is not formatted (%s)" % (excl, detail) if verdict else
+                  "a member whose type is excluded through `%s` is still formatted with `{:?}` (%s): that type has no Debug impl (E0277)"
+                  % (excl, detail or "no arm"), b.loc(m))
